@@ -5,6 +5,8 @@ import (
 	"encoding/json"
 	"io"
 	"math/rand"
+	"runtime"
+	"runtime/debug"
 	"sync"
 	"time"
 
@@ -416,6 +418,19 @@ func Stream(a Args) error {
 			return err
 		}
 	}
+	// messages longer than 64 KiB (the length field has 24 bits), followed by a small one
+	for _, big := range []int{65536, 70052, 131072 + 28} {
+		c := streamCase{Lens: []int{100, big, 28}, Total: 128 + big, Chunks: []int{}}
+		for left := c.Total; left > 0; {
+			k := 30000
+			if k > left {
+				k = left
+			}
+			c.Chunks = append(c.Chunks, k)
+			left -= k
+		}
+		run(&c)
+	}
 	r := rand.New(rand.NewSource(a.Seed))
 	sizes := []int{20, 28, 32, 100, 1043, 1044, 1045, 1100, 4100, 4200, 9000}
 	for i := 0; i < a.N; i++ {
@@ -501,6 +516,21 @@ func Stream(a Args) error {
 	wg.Wait()
 	for k := range lines {
 		out.Emit(lines[k])
+	}
+	// last (it changes a package variable for the rest of the process): the application raises the exported
+	// diam.MessageBufferLength after messages have been read; a body between the old and the new value is read
+	// whichever buffer the pool hands out
+	{
+		prevP := runtime.GOMAXPROCS(1)
+		debug.SetGCPercent(-1)
+		small := streamCase{Lens: []int{100}, Total: 100, Chunks: []int{100}}
+		runStreamDirect(0, &small, vp)
+		diam.MessageBufferLength = 4096
+		id++
+		grown := streamCase{Lens: []int{100, 2060, 100}, Total: 2260, Chunks: []int{2260}}
+		out.Emit(runStreamDirect(id, &grown, vp))
+		debug.SetGCPercent(100)
+		runtime.GOMAXPROCS(prevP)
 	}
 	for k := range slow {
 		if judged[k] {
